@@ -6,7 +6,15 @@ patch="$(realpath "$1")"; tier="$2"; shift 2
 cd /verif
 if ! git -C /repo diff --quiet; then echo "/repo has uncommitted changes: refusing"; exit 3; fi
 git -C /repo apply "$patch" || { echo "patch does not apply"; exit 3; }
-trap 'git -C /repo checkout -- . ; git -C /repo clean -fdq -- internal libs >/dev/null 2>&1' EXIT
+# evidence and replay files written while a seeded change is applied describe the changed tree: put them back
+snap=$(mktemp -d /var/tmp/verif-tryseed-XXXXXX); cp -a evidence "$snap/evidence"; ls replays/*/* 2>/dev/null | sort > "$snap/replays.before"
+restore() {
+  git -C /repo checkout -- . ; git -C /repo clean -fdq -- internal libs >/dev/null 2>&1
+  rm -rf evidence; cp -a "$snap/evidence" evidence
+  ls replays/*/* 2>/dev/null | sort | comm -13 "$snap/replays.before" - | xargs -r rm -f
+  rm -rf "$snap"
+}
+trap restore EXIT
 for id in "$@"; do
   out=$(VERIF_SEED=${VERIF_SEED:-1} ./check "$id" "$tier" 2>&1)
   rc=$?
